@@ -34,6 +34,9 @@ def make_family(log):
         I.Method('FailNamed', '', ''), I.Method('FailBadName', '', ''),
         I.Method('BadRet', '', 'i'), I.Method('Shared', 's', 's'),
         I.Method('Unbound', '', ''),
+        # a single container return value whose value has 0 / 1 elements
+        I.Method('List1', 'as', 'as'), I.Method('Tup1', '', '(i)'),
+        I.Method('Empty', '', 'as'), I.Method('Dict1', '', 'a{si}'),
         noRegister=True)
     i2 = I.DBusInterface(
         'org.ex.I2', I.Method('Shared', 's', 's'), I.Method('Only2', '', 's'),
@@ -70,6 +73,22 @@ def make_family(log):
         def dbus_List(self, l):
             self._l('List', l)
             return list(reversed(l))
+
+        def dbus_List1(self, l):
+            self._l('List1', l)
+            return list(l)
+
+        def dbus_Tup1(self):
+            self._l('Tup1')
+            return (7,)
+
+        def dbus_Empty(self):
+            self._l('Empty')
+            return []
+
+        def dbus_Dict1(self):
+            self._l('Dict1')
+            return {'k': 1}
 
         def dbus_Var(self, v):
             self._l('Var', v)
@@ -159,11 +178,13 @@ MEMBERS = {
     'Fail': ('s', ['x']), 'FailNamed': ('', []), 'FailBadName': ('', []),
     'BadRet': ('', []), 'Shared': ('s', ['sh']), 'Unbound': ('', []),
     'Only2': ('', []), 'More': ('', []), 'Extra': ('', []), 'Nope': ('', []),
+    'List1': ('as', [['solo']]), 'Tup1': ('', []), 'Empty': ('', []),
+    'Dict1': ('', []),
 }
 IFACE_OF = {m: 'org.ex.I1' for m in
             ('Echo', 'Pair', 'Nothing', 'Struct', 'List', 'Var', 'Two', 'Who',
              'WhoArg', 'Defer', 'Fail', 'FailNamed', 'FailBadName', 'BadRet',
-             'Unbound')}
+             'Unbound', 'List1', 'Tup1', 'Empty', 'Dict1')}
 IFACE_OF.update({'Only2': 'org.ex.I2', 'More': 'org.ex.I2',
                  'Extra': 'org.ex.I3'})
 PATHS = {'/base': 'base', '/base/derived': 'derived', '/nope': None,
@@ -268,6 +289,14 @@ def _outcome(obj, iface, member, arg):
         return ((name, 'List', ['x', 'y']), ('ret', 'as', [['y', 'x']]))
     if member == 'Var':
         return ((name, 'Var', 'vv'), ('ret', 'v', ['vv']))
+    if member == 'List1':
+        return ((name, 'List1', ['solo']), ('ret', 'as', [['solo']]))
+    if member == 'Tup1':
+        return ((name, 'Tup1'), ('ret', '(i)', [[7]]))
+    if member == 'Empty':
+        return ((name, 'Empty'), ('ret', 'as', [[]]))
+    if member == 'Dict1':
+        return ((name, 'Dict1'), ('ret', 'a{si}', [{'k': 1}]))
     if member == 'Two':
         return ((name, 'Two', 'a', 'b'), ('ret', 's', ['ab']))
     if member == 'Who':
